@@ -92,10 +92,6 @@ theorem tie_AddTask (o : Obs) (f : Option Gk.Err) (ctx : Ctx) (p : Gk.Param) (hf
 theorem cached_eq (o : Obs) (f : Option Gk.Err) (c : Gk.Task) (hc : o.hook.cached = some c) :
     (genOf o f).cachedMin = toGen c := by simp [genOf, hc]
 
-@[simp] theorem toGen_Id (c : Gk.Task) : (toGen c).Id = c.id := rfl
-@[simp] theorem toGen_Priority (c : Gk.Task) : (toGen c).Priority = c.priority := rfl
-@[simp] theorem toGen_ScheduledAt (c : Gk.Task) : (toGen c).ScheduledAt = c.scheduledAt := rfl
-
 theorem less_aux (P : Def.TaskUpdateParam) (p' : Gk.Param) (c : Gk.Task) (hP : P = toGenP p') :
     (P.ToTask Def.NeverExistentId Go.time_Zero).Less (toGen c) =
       (p'.toTask "%%%%$$$$%%%%$$$$%%%%$$$$" 0).lessHook c := by
